@@ -1,5 +1,6 @@
 import Tyme.Driver.Util
 import Tyme.Driver.P01
+import Tyme.Driver.P16
 import Tyme.Driver.P11
 import Tyme.Driver.P05
 import Tyme.Driver.P20
@@ -33,6 +34,7 @@ def execOpAll (op : String) (a : List Int) : String :=
     <|> (P20.execOp op a)
     <|> (P05.execOp op a)
     <|> (P11.execOp op a)
+    <|> (P16.execOp op a)
     -- DISPATCH-EXEC   <|> (Pxx.execOp op a)
   match r with
   | none => "bad-op"
@@ -55,6 +57,7 @@ def specOpAll (op : String) (a : List Int) : String :=
     <|> (P20.specOp op a)
     <|> (P05.specOp op a)
     <|> (P11.specOp op a)
+    <|> (P16.specOp op a)
     -- DISPATCH-SPEC   <|> (Pxx.specOp op a)
   match r with
   | none => "n/a"
@@ -76,6 +79,7 @@ def runEnumAll (name : String) (args : List String) (out : IO.FS.Stream) : Optio
   <|> (P20.runEnum name args out)
   <|> (P05.runEnum name args out)
   <|> (P11.runEnum name args out)
+  <|> (P16.runEnum name args out)
   -- DISPATCH-ENUM   <|> (Pxx.runEnum name args out)
 
 def lineWith (f : String → List Int → String) (line : String) : String :=
